@@ -34,55 +34,56 @@ THEOREMS = [
 GORACE = "halt_on_error=1 exitcode=66"
 
 # ---------------------------------------------------------------- expected facts
-# What Model/Pool.lean assumes about the shape of the Go code.
+# What Model/Pool.lean assumes about the Go code, as SEMANTIC abstractions of
+# the source (harness/cmd/c17/effects.go): for each entry point the set of
+# effects on state the call does not own -- writes through, external method
+# calls on and escapes of references rooted at the receiver (named by declared
+# type), a package variable, a reference-typed parameter (position + type), the
+# pool object (POOL = what Circuit.garblePool points to) or a scratch it handed
+# out (SCRATCH = POOL.Get()).  Same-package callees are followed with the
+# origins of their arguments; local aliases, renamings, helper extraction /
+# inlining, loop forms do not change the sets; reads are not effects.
 
-EXPECT_RELEASE = [
+EXPECT_EFFECTS = {
+    # Garble: creates/looks up the pool with Load + CompareAndSwap of a locally built object, takes one
+    # scratch, writes only the three buffers of that scratch, may Put it back; nothing of the circuit itself
+    "Circuit.Garble": [
+        "extcall POOL.Get",
+        "extcall POOL.Put(SCRATCH)",
+        "extcall recv:Circuit.garblePool.CompareAndSwap(fresh)",
+        "extcall recv:Circuit.garblePool.Load",
+        "write SCRATCH.gates[*]",
+        "write SCRATCH.slab[*]",
+        "write SCRATCH.wires[*]",
+    ],
+    # Eval writes only its wire-label argument; Compute nothing it does not own
+    "Circuit.Eval": ["write param#1([]ot.Label)[*]"],
+    "Circuit.Compute": [],
+    # Release: one Put of its own scratch into its own pool, clears the four fields of the handle
+    "Garbled.Release": [
+        "extcall recv:Garbled.pool.Put(recv:Garbled.scratch)",
+        "write recv:Garbled.Gates",
+        "write recv:Garbled.Wires",
+        "write recv:Garbled.pool",
+        "write recv:Garbled.scratch",
+    ],
+}
+
+# textual renderings: ADVISORY only (their semantic content is decided by the effect sets above, the trace
+# correspondence and the stress oracle)
+ADVISE_RELEASE = {"receiver": "*Garbled", "statements": [
     "if g == nil || g.pool == nil { return }",
     "g.pool.Put(g.scratch)",
     "g.scratch = nil",
     "g.pool = nil",
     "g.Wires = nil",
     "g.Gates = nil",
-]
-
-EXPECT_ACCESS = {
-    # Garble writes only through the three buffers of the scratch it got from
-    # the pool; the gate list is only read (gate.garbleInto has a pointer
-    # receiver into c.Gates: its own access list below shows no write to it)
-    "Circuit.Garble": {
-        "access": ["W-scratch.gates", "W-scratch.slab", "W-scratch.wires",
-                   "addr-of-receiver:&c.Gates[i]", "alias:gate=&c.Gates[i]",
-                   "call-on-receiver:c.Inputs.Size", "call-on-receiver:c.garbleScratchPool",
-                   "call-on-shared-alias:gate.garbleInto"],
-        "callees": ["Size", "garbleInto", "garbleScratchPool", "makeLabels"]},
-    "Gate.garbleInto": {
-        "access": ["W-param:idp", "W-param:table", "W-param:wires", "arg-shared:fmt.Errorf(g.Op)"],
-        "callees": ["encrypt", "encryptHalf", "idx", "idxUnary"]},
-    "Circuit.garbleScratchPool": {
-        "access": ["arg-shared:make(c.NumGates)", "arg-shared:make(c.NumWires)",
-                   "call-on-receiver:c.garblePool.CompareAndSwap", "call-on-receiver:c.garblePool.Load"],
-        "callees": ["CompareAndSwap", "Load"]},
-    "Garbled.Release": {
-        "access": ["W-receiver:g.Gates", "W-receiver:g.Wires", "W-receiver:g.pool", "W-receiver:g.scratch",
-                   "arg-shared:g.pool.Put(g.scratch)", "call-on-receiver:g.pool.Put"],
-        "callees": ["Put"]},
-    # Eval writes only its `wires` argument; Compute only locals
-    "Circuit.Eval": {
-        "access": ["W-param:wires", "addr-of-receiver:&c.Gates[i]", "alias:gate=&c.Gates[i]",
-                   "arg-shared:fmt.Errorf(gate.Op)"],
-        "callees": ["decrypt", "encryptHalf", "idx", "idxUnary"]},
-    "Circuit.Compute": {
-        "access": ["arg-shared:make(c.NumWires)", "call-on-receiver:c.Outputs.Size"],
-        "callees": ["Size"]},
-    "encrypt": {"access": [], "callees": ["makeK"]},
-    "decrypt": {"access": [], "callees": ["makeK"]},
-    "encryptHalf": {"access": [], "callees": []},
-    "makeK": {"access": [], "callees": []},
-    "makeKHalf": {"access": [], "callees": []},
-    "makeLabels": {"access": [], "callees": []},
-    "idx": {"access": [], "callees": []},
-    "idxUnary": {"access": [], "callees": []},
-}
+]}
+ADVISE_RELEASE_SHAPE = {
+    "cleared_after_put": ["Garbled.Gates", "Garbled.Wires", "Garbled.pool", "Garbled.scratch"],
+    "guard_returns_when": ["Garbled == nil", "Garbled.pool == nil"],
+    "put": "Garbled.pool.Put(Garbled.scratch)", "put_before_clears": True, "puts": 1}
+ADVISE_HANDLE = ["Gates=SCRATCH.gates", "R=own", "Wires=SCRATCH.wires", "pool=POOL", "scratch=SCRATCH"]
 
 
 def norm(x):
@@ -95,39 +96,46 @@ def check_facts(ctx, facts):
     if not isinstance(facts, dict):
         ctx.oblige("facts extracted from circuit/*.go", False, str(facts))
         return
-    g = norm(facts.get("Garble", {}))
-    ctx.fact("Garble: starts with pool := c.garbleScratchPool(); scratch := pool.Get().(*garbledScratch)",
-             g.get("first_statements"),
-             ["pool := c.garbleScratchPool()", "scratch := pool.Get().(*garbledScratch)"])
-    ctx.fact("Garble: exactly one pool.Get", g.get("get_calls"), 1)
-    ctx.fact("Garble: every early (error) return is directly preceded by pool.Put(scratch), and there is no other Put",
-             (g.get("error_returns", 0) >= 1, g.get("error_returns") == g.get("error_returns_preceded_by_put"),
-              g.get("put_calls") == g.get("error_returns")), (True, True, True))
-    ctx.fact("Garble: one success return publishing the scratch and the pool in the handle",
-             (g.get("success_returns"), g.get("success_return")),
-             (1, "return &Garbled{ R: r, Wires: wires, Gates: gates, scratch: scratch, pool: pool, }, nil"))
-    ctx.fact("Garble: wires/slab/gates are the buffers of the scratch it holds", g.get("scratch_aliases"),
-             ["gates := scratch.gates", "slab := scratch.slab", "wires := scratch.wires"])
-    ctx.coverage["garble_error_returns"] = g.get("error_returns")
-    r = norm(facts.get("Release", {}))
-    ctx.fact("Release: nil/pool==nil guard, then Put, then the handle fields are cleared",
-             (r.get("receiver"), r.get("statements")), ("*Garbled", EXPECT_RELEASE))
-    p = norm(facts.get("garbleScratchPool", {}))
-    ctx.fact("garbleScratchPool: Load, CompareAndSwap(nil, p), Load on an atomic.Pointer[sync.Pool]; no other writer",
-             (p.get("field_type"), p.get("atomic_ops"), p.get("returns"), p.get("other_uses_of_garblePool")),
-             ("atomic.Pointer[sync.Pool]", ["Load()", "CompareAndSwap(nil, p)", "Load()"],
-              ["return p", "return p", "return c.garblePool.Load()"], []))
-    ctx.fact("pool New allocates fresh wires/slab/gates for every scratch", p.get("new_scratch_fields"),
-             ["gates=make", "slab=make", "wires=make"])
-    ctx.fact("Garbled / garbledScratch fields",
-             (norm(facts.get("Garbled_fields")), norm(facts.get("garbledScratch_fields"))),
-             (["R ot.Label", "Wires []ot.Wire", "Gates [][]ot.Label", "scratch *garbledScratch", "pool *sync.Pool"],
-              ["wires []ot.Wire", "slab []ot.Label", "gates [][]ot.Label"]))
-    acc = norm(facts.get("access", {}))
-    for fn, want in EXPECT_ACCESS.items():
-        got = acc.get(fn, {})
-        ctx.fact("shared-state access of %s (writes, address-taking, calls through the receiver)" % fn,
-                 {"access": got.get("access"), "callees": got.get("callees")}, want)
+    facts = norm(facts)
+    # --- semantic facts (obligations)
+    eff = facts.get("effects", {})
+    for fn, want in EXPECT_EFFECTS.items():
+        ctx.fact("effects of %s on state it does not own (interprocedural; writes / external calls / escapes)" % fn,
+                 eff.get(fn), want)
+    pp = facts.get("put_paths", {})
+    ctx.coverage["garble_put_paths"] = pp
+    decided = not pp.get("undecided") and not pp.get("missing")
+    if decided:
+        ctx.fact("Garble: one pool.Get; every error return has executed exactly one Put (deferred Puts counted), "
+                 "the success return none",
+                 {"gets": pp.get("get_sites_in_closure_of_Garble"), "error": pp.get("error_return_put_counts"),
+                  "success": pp.get("success_return_put_counts")},
+                 {"gets": 1, "error": [1], "success": [0]})
+    else:
+        # the path analysis cannot decide this shape of the code: not an alarm, widen the search
+        ctx.advise("Garble: Put count per return path decidable by the path analysis", pp.get("undecided"), [])
+    ctx.fact("operations applied to Circuit.garblePool anywhere in package circuit; its declared type",
+             (facts.get("garblePool_ops"), facts.get("garblePool_type")),
+             (["CompareAndSwap", "Load"], "atomic.Pointer[sync.Pool]"))
+    ctx.fact("pool New builds every scratch from allocations made inside New (nothing captured/shared)",
+             facts.get("new_scratch"), ["gates=make@inside-New", "slab=make@inside-New", "wires=make@inside-New"])
+    # --- advisory (textual) facts
+    ctx.advise("Garble: the handle literal binds Wires/Gates/scratch to the scratch it holds and pool to the pool "
+               "(decided by the trace correspondence: scratch/pool identity read from every handle)",
+               facts.get("handle_literal"), ADVISE_HANDLE)
+    ctx.advise("Release: guard / Put / clear order (decided by the effect set of Release and the Release, "
+               "second-Release and nil-Release operations of the stress oracle)",
+               facts.get("release_shape"), ADVISE_RELEASE_SHAPE)
+    ctx.advise("Release: statement text", facts.get("Release_statements"), ADVISE_RELEASE)
+    pt = facts.get("garbleScratchPool_text", {})
+    ctx.advise("garbleScratchPool: order of atomic operations and returned values (decided by the pool-uniqueness "
+               "oracle and first-use rounds)",
+               (pt.get("atomic_ops"), pt.get("returns")),
+               (["Load()", "CompareAndSwap(nil, p)", "Load()"], ["return p", "return p", "return c.garblePool.Load()"]))
+    ctx.advise("Garbled / garbledScratch field lists (what Garble stores in a scratch is decided by its effect set)",
+               (facts.get("Garbled_fields"), facts.get("garbledScratch_fields")),
+               (["R ot.Label", "Wires []ot.Wire", "Gates [][]ot.Label", "scratch *garbledScratch", "pool *sync.Pool"],
+                ["wires []ot.Wire", "slab []ot.Label", "gates [][]ot.Label"]))
 
 
 def distinct_traces(ctx, ops):
@@ -209,7 +217,7 @@ def run(ctx):
     if race:
         for s in seeds:
             stress(ctx, 1200 if quick else 5000, s, binary=race, race=True)
-    if ctx.broken and not ctx.fails and ctx.hx and race:
+    if ctx.widen and ctx.hx and race:
         # widened search for a concrete failing schedule
         for s in range(ctx.seed + 7000, ctx.seed + 7003):
             stress(ctx, 2000, s, binary=race, race=True, tag="-widen")
@@ -252,7 +260,7 @@ def run(ctx):
         "is written first (C01); C17_garble_result_history_free takes this as its hypothesis",
     ]
     ctx.trusted = vlib.DEFAULT_TRUSTED + [
-        "go/parser + go/ast fact extractor in harness/cmd/c17/facts.go",
+        "go/parser + go/ast interprocedural effect / Put-path extractor in harness/cmd/c17/{effects,facts}.go (syntactic, best-effort types)",
         "the Go race detector (ThreadSanitizer runtime) and reflect-based reading of the unexported "
         "scratch/pool pointers",
     ]
